@@ -8,6 +8,9 @@ namespace Arca.Expected.C07
 /-- The recover handlers of the engine library.  Both turn ANY recovered value into an error with `%v`; neither asserts a
     type on it (`Arca.Props.C07.no_unchecked_assertion_on_recovered_value` is about the regenerated table, not this list). -/
 def recoverSites : List (String × String) := [
+  -- preparation: the SDK panics on a default value of the workflow input section that it cannot decode; turned into an
+  -- "invalid workflow" error while the workflow is prepared (fix 2d63d83), so that it cannot happen during a run
+  ("workflow/executor.go", "validateDefaults"),
   -- run-time faults of expression evaluation (integer division by zero, reflect misuse on Go-typed containers, ...)
   ("workflow/workflow.go", "loopState.resolveExpressions"),
   -- panics of the expression parser on malformed expressions (parse time; C11)
